@@ -1020,16 +1020,16 @@ class Div(DiffOperator):
             b = S.One
             if vectors:
                 if len(vectors) == 2:
-                    a,b = vectors
+                    u,v = vectors
                     # TODO remove try/except using regularity from space
                     try:
-                        if isinstance(a, (Tuple, VectorFunction)):
-                            f = b ; F = a
-                            return f*Div(F) + Dot(F, grad(f))
+                        if isinstance(u, (Tuple, VectorFunction)):
+                            f = v ; F = u
+                            return a*(f*Div(F) + Dot(F, grad(f)))
 
-                        elif isinstance(b, (Tuple, VectorFunction)):
-                            f = a ; F = b
-                            return f*Div(F) + Dot(F, grad(f))
+                        elif isinstance(v, (Tuple, VectorFunction)):
+                            f = u ; F = v
+                            return a*(f*Div(F) + Dot(F, grad(f)))
 
                     except:
                         return cls(expr.func(*vectors), evaluate=False)
